@@ -400,4 +400,5 @@ package dotgit
 //gvc:  loop 2 invariant pos: it2 >= 0
 //gvc:  sink WriteString requires [C16] hashref: ref != nil ==> ref.t == 1
 //gvc:  sink Remove#2 requires [C16] hashref: ref != nil ==> ref.t == 1
+//gvc:  sink Remove#2 requires [C14] loose: it2 < numLooseRefs
 //gvc:end
